@@ -195,11 +195,26 @@ def build(kind, sel):
         lv3 = r.partitions[0].dpfs_lv3_file._lv3
         hs = [DPFSLevel3FileIO(lv3) for _ in range(3)]
         return dict(base=base, handles=[hs[i] for i in sel], writable=True, keep=[r, lv3] + hs, block=lv3._block_size, size=lv3.size)
+    if kind == 'ivfc_writes':
+        # several verified level-4 views of one hash tree writing overlapping blocks: data, hash levels and master hash of every
+        # write go together
+        from pyctr.crypto.engine import CryptoEngine
+        from pyctr.type.save.diff import DIFF
+        from pyctr.type.save.partdesc.ivfc import IVFCLevel4Reader
+        base = TT.TBase(io.BytesIO(im['diff']))
+        r = DIFF(base, crypto=CryptoEngine(setup_b9_keys=False))
+        tree = r.partitions[0].ivfc_hash_tree
+        hs = [IVFCLevel4Reader(tree) for _ in range(3)]
+        for h in hs:
+            h.read()
+            h.seek(0)
+        return dict(base=base, handles=[hs[i] for i in sel], writable=True, keep=[r, tree] + hs, block=tree._ivfc.lv4.block_size if hasattr(tree, '_ivfc') else 0x200,
+                    size=handle_size(hs[0]))
     raise ValueError(kind)
 
 
 # scenarios whose threads write overlapping ranges: any forced schedule must give the outcome of one of the serial orders
-ORDER_DEPENDENT = ('dpfs_writes',)
+ORDER_DEPENDENT = ('dpfs_writes', 'ivfc_writes')
 
 SCENARIOS = [
     ('windows', [(0, 1), (0, 2), (0, 1, 2)]),
@@ -217,6 +232,7 @@ SCENARIOS = [
     ('disa', [(0, 1), (0, 2)]),
     ('disa_cold', [(0, 1), (0, 2)]),
     ('dpfs_writes', [(0, 1), (0, 1, 2)]),
+    ('ivfc_writes', [(0, 1)]),
 ]
 
 
